@@ -317,7 +317,7 @@ func c08Class(kind string, m fmtMode, src []byte, origin string) string {
 // hasOpenBraceComment: a `//` comment on the line of an opening `{`, directly after it.
 func hasOpenBraceComment(f *ast.File) bool {
 	for _, p := range commentPlaces(f) {
-		if p.owner == "StructLit" && p.class == "line" {
+		if p.owner == "StructLit" && p.class == "line" { // class (not side): directly after `{` on its line
 			return true
 		}
 	}
